@@ -170,6 +170,7 @@ ApplyIO(n, s) ==
                              ELSE LET s1 == PopN(s, "bvec", 1) IN
                                   IF ~Has(s, "ivec", 1) THEN Unfired(s1)
                                   ELSE LET s2 == PopN(s1, "ivec", 1) IN
-                                       IF Len(s.output) >= s.cfg.out_cap THEN Fired(s2)
+                                       \* a full queue refuses the message: a failed guard (what becomes of the operands is C10's clause)
+                                       IF Len(s.output) >= s.cfg.out_cap THEN Unfired(s2)
                                        ELSE Fired(SetF(s2, "output", s.output \o <<[h |-> s.ivec[1], b |-> s.bvec[1]]>>))
 =============================================================================
